@@ -95,6 +95,13 @@ def menu_entry(k):
         m["n_sr_blocks_eql"] = rng.choice([1, 2])
     if kind != "cpmc":
         lab.corner_override(m, k, 8, empty_ok=m.get("ad_mode") is None)
+        r3 = random.Random(880300 + k)
+        if m.get("corner") is None and r3.random() < 0.15:
+            # "every trial": the hand-coded CI trials of production runs
+            if m["wt"] == "restricted" and m["trial"] == "rhf":
+                m["trial"], m["corner"] = "cisd", "cisd_trial"
+            elif m["wt"] == "unrestricted" and m["trial"] in ("uhf", "noci"):
+                m["trial"], m["corner"] = "ucisd", "ucisd_trial"
     return m
 
 
